@@ -576,6 +576,271 @@ Proof.
   split; [apply get_miss|apply has_miss]; assumption.
 Qed.
 
+(** * Life-cycle operations: RangeKeys, DestroyUnit, Close (histories over [lop]) *)
+
+(** association lists with pairwise different keys: what [p_set] / [p_del] build *)
+Definition p_wf (p : pstore) : Prop := NoDup (map fst p).
+
+Lemma p_del_in p k k' v : In (k', v) (p_del p k) -> In (k', v) p /\ k' <> k.
+Proof.
+  induction p as [|[k0 v0] r IH]; simpl; [intros []|].
+  destruct (beqb k k0) eqn:E.
+  - intros H. destruct (IH H) as [H1 H2]. split; [right; exact H1|exact H2].
+  - intros [H|H].
+    + inversion H; subst. split; [left; reflexivity|]. apply beqb_neq in E. congruence.
+    + destruct (IH H) as [H1 H2]. split; [right; exact H1|exact H2].
+Qed.
+
+Lemma p_del_keys p k k' : In k' (map fst (p_del p k)) -> In k' (map fst p) /\ k' <> k.
+Proof.
+  intros H. apply in_map_iff in H. destruct H as [[k0 v0] [E H]]. simpl in E. subst k0.
+  apply p_del_in in H. destruct H as [H1 H2]. split; [|exact H2].
+  apply in_map_iff. exists (k', v0). split; [reflexivity|exact H1].
+Qed.
+
+Lemma p_del_wf p k : p_wf p -> p_wf (p_del p k).
+Proof.
+  unfold p_wf. induction p as [|[k0 v0] r IH]; simpl; intros H; [constructor|].
+  inversion H as [|x y Hn Hd]; subst. destruct (beqb k k0); [apply IH; exact Hd|].
+  simpl. constructor; [|apply IH; exact Hd]. intros Hin. apply p_del_keys in Hin. tauto.
+Qed.
+
+Lemma p_set_wf p k v : p_wf p -> p_wf (p_set p k v).
+Proof.
+  intros H. unfold p_wf, p_set. simpl. constructor; [|apply p_del_wf; exact H].
+  intros Hin. apply p_del_keys in Hin. destruct Hin as [_ Hne]. congruence.
+Qed.
+
+Lemma p_wf_lookup p : p_wf p -> forall k v, In (k, v) p <-> p_lookup p k = Some v.
+Proof.
+  unfold p_wf. induction p as [|[k0 v0] r IH]; simpl; intros H k v.
+  - split; [intros []|discriminate].
+  - inversion H as [|x y Hn Hd]; subst. destruct (beqb k k0) eqn:E.
+    + apply beqb_eq in E. subst k0. split.
+      * intros [Heq|Hin]; [inversion Heq; reflexivity|].
+        exfalso. apply Hn. apply in_map_iff. exists (k, v). split; [reflexivity|exact Hin].
+      * intros Heq. inversion Heq. left. reflexivity.
+    + apply beqb_neq in E. rewrite <- (IH Hd k v). split.
+      * intros [Heq|Hin]; [inversion Heq; congruence|exact Hin].
+      * intros Hin. right. exact Hin.
+Qed.
+
+Lemma ack_step_wf m x : p_wf m -> p_wf (ack_step m x).
+Proof.
+  intros H. destruct x as [op out]. destruct op; simpl; try exact H;
+    destruct out as [e| | | |]; try exact H; destruct e; try exact H;
+    first [apply p_set_wf; exact H|apply p_del_wf; exact H].
+Qed.
+
+Lemma life_ack_step_wf m x : p_wf m -> p_wf (life_ack_step m x).
+Proof.
+  intros H. destruct x as [op out]. destruct op as [d| |o|o]; cbn [life_ack_step].
+  - apply ack_step_wf. exact H.
+  - exact H.
+  - destruct out as [e| | | |]; try exact H. destruct e; try exact H. constructor.
+  - exact H.
+Qed.
+
+Lemma life_ack_map_wf tr : p_wf (life_ack_map tr).
+Proof.
+  unfold life_ack_map. assert (G : forall m, p_wf m -> p_wf (fold_left life_ack_step tr m)).
+  { induction tr as [|x r IH]; intros m Hm; [exact Hm|]. simpl. apply IH. apply life_ack_step_wf. exact Hm. }
+  apply G. constructor.
+Qed.
+
+Definition is_destroy (op : lop) : bool := match op with LDestroyUnit _ => true | _ => false end.
+Definition destroy_free (ops : list lop) : Prop := forallb (fun op => negb (is_destroy op)) ops = true.
+
+(** what the outputs of a life-cycle history must be, against the map of acknowledged writes *)
+Definition life_out_ok (m : pstore) (op : lop) (out : uout) : Prop :=
+  match op with
+  | LData d => out_ok m d out
+  | LRangeKeys => out = RRange m
+  | LDestroyUnit o | LClose o => out = RErr (write_err o)
+  end.
+
+Fixpoint life_trace_ok (m : pstore) (tr : list (lop * uout)) : Prop :=
+  match tr with
+  | [] => True
+  | x :: r => life_out_ok m (fst x) (snd x) /\ life_trace_ok (life_ack_step m x) r
+  end.
+
+(** the cache answers nothing for any key *)
+Definition cache_silent (c : c_st C) : Prop :=
+  forall k, snd (c_get C c k) = None /\ c_has C c k = false.
+
+Lemma forgets_silent c : clear_forgets C L -> inv c -> cache_silent (c_clear C c).
+Proof.
+  intros Hcf Hinv k. apply may_none_get; [apply cl_inv_clear; exact Hinv|apply Hcf; exact Hinv].
+Qed.
+
+(** ** DestroyUnit: the cache is cleared in every case; the persister is emptied iff it accepts *)
+Lemma destroy_spec s o s' o' e :
+  coherent s -> (clear_forgets C L \/ hd false o = true) -> unit_destroy C s o = (s', o', e) ->
+  coherent s' /\ e = write_err o /\
+  u_cache s' = c_clear C (u_cache s) /\
+  u_pers s' = (if hd false o then u_pers s else []).
+Proof.
+  intros [Hinv Hco] Hcf H. unfold unit_destroy, per_destroy, write_err in *. rewrite take_bit_eq in H.
+  destruct (hd false o) eqn:Hb; inversion H; subst; clear H; simpl.
+  - repeat split; simpl; auto.
+    + apply cl_inv_clear. exact Hinv.
+    + intros k v Hm. apply cl_clear in Hm; [|exact Hinv]. auto.
+  - destruct Hcf as [Hcf|Hcf]; [|discriminate]. repeat split; simpl; auto.
+    + apply cl_inv_clear. exact Hinv.
+    + intros k v Hm. rewrite (Hcf _ k Hinv) in Hm. discriminate.
+Qed.
+
+(** ** Close: the cache is cleared BEFORE the persister is asked, so also when its Close fails; the
+    persister's error is what is returned; the stored data is untouched *)
+Lemma close_spec s o s' o' e :
+  coherent s -> unit_close C s o = (s', o', e) ->
+  coherent s' /\ e = write_err o /\
+  u_cache s' = c_clear C (u_cache s) /\ u_pers s' = u_pers s.
+Proof.
+  intros [Hinv Hco] H. unfold unit_close, per_close, write_err in *. rewrite take_bit_eq in H.
+  assert (Hc : coherent {| u_cache := c_clear C (u_cache s); u_pers := u_pers s |}).
+  { split; simpl; [apply cl_inv_clear; exact Hinv|].
+    intros k v Hm. apply cl_clear in Hm; [|exact Hinv]. auto. }
+  destruct (hd false o) eqn:Hb; inversion H; subst; clear H; simpl; repeat split; auto; apply Hc.
+Qed.
+
+Lemma life_step_spec s op s' out :
+  coherent s -> (clear_forgets C L \/ is_destroy op = false) -> life_step C s op = (s', out) ->
+  coherent s' /\ u_pers s' = life_ack_step (u_pers s) (op, out) /\ life_out_ok (u_pers s) op out.
+Proof.
+  intros Hco Hcf H. destruct op as [d| |o|o]; cbn [life_step] in H.
+  - apply (step_spec _ _ _ _ Hco H).
+  - inversion H; subst. split; [exact Hco|]. split; reflexivity.
+  - destruct (unit_destroy C s o) as [[s1 o1] e] eqn:E. injection H as <- <-.
+    assert (Hcf' : clear_forgets C L \/ hd false o = true) by (destruct Hcf as [G|G]; [left; exact G|discriminate]).
+    destruct (destroy_spec _ _ _ _ _ Hco Hcf' E) as (H1 & -> & _ & H3).
+    split; [exact H1|]. split; [|reflexivity].
+    rewrite H3. unfold write_err. simpl. destruct (hd false o); reflexivity.
+  - destruct (unit_close C s o) as [[s1 o1] e] eqn:E. injection H as <- <-.
+    destruct (close_spec _ _ _ _ _ Hco E) as (H1 & -> & _ & H3).
+    split; [exact H1|]. split; [exact H3|reflexivity].
+Qed.
+
+Lemma life_final_cons s op ops : life_final C s (op :: ops) = life_final C (fst (life_step C s op)) ops.
+Proof. reflexivity. Qed.
+
+Lemma life_run_spec ops : forall s, coherent s -> (clear_forgets C L \/ destroy_free ops) ->
+  life_trace_ok (u_pers s) (life_run C s ops) /\
+  coherent (life_final C s ops) /\
+  u_pers (life_final C s ops) = fold_left life_ack_step (life_run C s ops) (u_pers s).
+Proof.
+  induction ops as [|op r IH]; intros s Hco Hcf.
+  - simpl. auto.
+  - rewrite life_final_cons. cbn [life_run]. destruct (life_step C s op) as [s1 out] eqn:E.
+    cbn [life_trace_ok fold_left fst snd].
+    assert (Hcf1 : clear_forgets C L \/ is_destroy op = false).
+    { destruct Hcf as [G|G]; [left; exact G|right]. unfold destroy_free in G. simpl in G.
+      apply andb_true_iff in G. destruct G as [G _]. apply negb_true_iff in G. exact G. }
+    assert (Hcf2 : clear_forgets C L \/ destroy_free r).
+    { destruct Hcf as [G|G]; [left; exact G|right]. unfold destroy_free in *. simpl in G.
+      apply andb_true_iff in G. tauto. }
+    destruct (life_step_spec _ _ _ _ Hco Hcf1 E) as (H1 & H2 & H3).
+    destruct (IH s1 H1 Hcf2) as (I1 & I2 & I3). rewrite H2 in I1, I3.
+    split; [split; [exact H3|exact I1]|]. split; [exact I2|exact I3].
+Qed.
+
+(** ** The statements used by Props/C16.v *)
+Lemma life_map_all ops : (clear_forgets C L \/ destroy_free ops) ->
+  life_trace_ok [] (life_run C (unit_new C) ops).
+Proof. intros H. apply (life_run_spec ops (unit_new C) coherent_new H). Qed.
+
+Lemma life_pers_is_ack ops : (clear_forgets C L \/ destroy_free ops) ->
+  u_pers (life_final C (unit_new C) ops) = life_ack_map (life_run C (unit_new C) ops).
+Proof. intros H. apply (life_run_spec ops (unit_new C) coherent_new H). Qed.
+
+Lemma life_final_coherent ops : (clear_forgets C L \/ destroy_free ops) ->
+  coherent (life_final C (unit_new C) ops).
+Proof. intros H. apply (life_run_spec ops (unit_new C) coherent_new H). Qed.
+
+Lemma life_get_after ops k : (clear_forgets C L \/ destroy_free ops) ->
+  get_now (life_final C (unit_new C) ops) k = spec_get (life_ack_map (life_run C (unit_new C) ops)) k /\
+  has_now (life_final C (unit_new C) ops) k = spec_has (life_ack_map (life_run C (unit_new C) ops)) k.
+Proof.
+  intros H. rewrite <- (life_pers_is_ack ops H).
+  split; [apply get_now_spec|apply has_now_spec]; apply life_final_coherent; exact H.
+Qed.
+
+(** RangeKeys hands the handler exactly the pairs of the map of acknowledged writes - a list without
+    repeated keys whose members are the bindings of that map - and changes nothing; the cache is not
+    consulted (the statement is the same for every cacher and every cache content) *)
+Lemma range_keys_all pre : (clear_forgets C L \/ destroy_free pre) ->
+  let s0 := life_final C (unit_new C) pre in
+  let m := life_ack_map (life_run C (unit_new C) pre) in
+  life_step C s0 LRangeKeys = (s0, RRange m) /\
+  NoDup (map fst m) /\ (forall k v, In (k, v) m <-> p_lookup m k = Some v).
+Proof.
+  intros H s0 m. split.
+  - cbn [life_step unit_range_keys per_range]. subst m s0. rewrite (life_pers_is_ack pre H). reflexivity.
+  - split; [apply life_ack_map_wf|apply p_wf_lookup, life_ack_map_wf].
+Qed.
+
+(** DestroyUnit after any history *)
+Lemma destroy_unit_all pre o : clear_forgets C L ->
+  let s0 := life_final C (unit_new C) pre in
+  let r := life_step C s0 (LDestroyUnit o) in
+  let s1 := fst r in
+  u_cache s1 = c_clear C (u_cache s0) /\ cache_silent (u_cache s1) /\
+  (hd false o = false ->
+     snd r = RErr ENone /\ u_pers s1 = [] /\
+     forall k, get_now s1 k = GErr ENotFound /\ has_now s1 k = ENotFound) /\
+  (hd false o = true ->
+     snd r = RErr EInjected /\ u_pers s1 = u_pers s0 /\
+     forall k, get_now s1 k = spec_get (life_ack_map (life_run C (unit_new C) pre)) k).
+Proof.
+  intros Hcf s0 r s1.
+  assert (Hco0 : coherent s0) by (apply life_final_coherent; left; exact Hcf).
+  assert (E : exists s' o' e, unit_destroy C s0 o = (s', o', e) /\ r = (s', RErr e)).
+  { subst r. cbn [life_step]. destruct (unit_destroy C s0 o) as [[s' o'] e]. eauto. }
+  destruct E as (s' & o' & e & E & Hr).
+  destruct (destroy_spec _ _ _ _ _ Hco0 (or_introl Hcf) E) as (Hco1 & He & Hc & Hp).
+  assert (Hs1 : s1 = s') by (subst s1; rewrite Hr; reflexivity). subst s'.
+  split; [exact Hc|]. split; [rewrite Hc; apply forgets_silent; [exact Hcf|apply Hco0]|].
+  unfold write_err in He. split; intros Hb; rewrite Hb in He, Hp.
+  - split; [rewrite Hr; simpl; congruence|]. split; [exact Hp|]. intros k.
+    rewrite get_now_spec, has_now_spec by exact Hco1. rewrite Hp. split; reflexivity.
+  - split; [rewrite Hr; simpl; congruence|]. split; [exact Hp|]. intros k.
+    rewrite get_now_spec by exact Hco1. rewrite Hp. subst s0.
+    rewrite (life_pers_is_ack pre (or_introl Hcf)). reflexivity.
+Qed.
+
+(** Close after any history *)
+Lemma close_all pre o : (clear_forgets C L \/ destroy_free pre) ->
+  let s0 := life_final C (unit_new C) pre in
+  let r := life_step C s0 (LClose o) in
+  let s1 := fst r in
+  u_cache s1 = c_clear C (u_cache s0) /\ u_pers s1 = u_pers s0 /\
+  snd r = RErr (if hd false o then EInjected else ENone) /\
+  (clear_forgets C L -> cache_silent (u_cache s1)) /\
+  (hd false o = true ->
+     forall k, get_now s1 k = spec_get (life_ack_map (life_run C (unit_new C) pre)) k).
+Proof.
+  intros H s0 r s1.
+  assert (Hco0 : coherent s0) by (apply life_final_coherent; exact H).
+  assert (E : exists s' o' e, unit_close C s0 o = (s', o', e) /\ r = (s', RErr e)).
+  { subst r. cbn [life_step]. destruct (unit_close C s0 o) as [[s' o'] e]. eauto. }
+  destruct E as (s' & o' & e & E & Hr).
+  destruct (close_spec _ _ _ _ _ Hco0 E) as (Hco1 & He & Hc & Hp).
+  assert (Hs1 : s1 = s') by (subst s1; rewrite Hr; reflexivity). subst s'.
+  split; [exact Hc|]. split; [exact Hp|]. split; [rewrite Hr; simpl; rewrite He; reflexivity|].
+  split; [intros Hcf; rewrite Hc; apply forgets_silent; [exact Hcf|apply Hco0]|].
+  intros _ k. rewrite get_now_spec by exact Hco1. rewrite Hp. subst s0.
+  rewrite (life_pers_is_ack pre H). reflexivity.
+Qed.
+
+(** a history of data operations is a life-cycle history: the new statements extend the old ones *)
+Lemma life_run_data ops : forall s,
+  life_run C s (map LData ops) = map (fun x => (LData (fst x), snd x)) (unit_run C s ops).
+Proof.
+  induction ops as [|op r IH]; intros s; [reflexivity|]. cbn [map life_run unit_run life_step].
+  destruct (unit_step C s op) as [s1 out]. cbn [map fst snd]. rewrite IH. reflexivity.
+Qed.
+
 End Proofs.
 
 (** * The factory's decision rule *)
